@@ -114,10 +114,10 @@ func (c *symConn) wroteOpenFirst() bool {
 // ---------- listener model ----------
 
 type symListener struct {
-	ch     chan net.Conn
-	closed chan struct{}
+	ch       chan net.Conn
+	closed   chan struct{}
 	isClosed bool
-	accepts int
+	accepts  int
 }
 
 func newSymListener() *symListener {
